@@ -104,23 +104,27 @@ def run(tier, corrupt=False):
                         v.violation(f"generator rejects valid program {p['name']} ({variant} defaults)",
                                     f"the generator raised {type(e).__name__}: {e} for a specification the grammar allows", {"prog": p, "variant": variant})
                     acc = {p["name"] for p in accepted}
-                    cases = []
+                    cases, kept = [], []
                     for i, r in enumerate(recs):
                         if r["prog"] in acc:
                             cases.append({"kind": "ser", "prog": r["prog"], "san0": r["san0"], "fuel": -1, "obj": r["obj"], "salt": i,
                                           "via_write": (i % 2 == 1)})
+                            kept.append(r)
+                            if variant == "implicit" and i % 3 == 0 and r["exc"] == "":
+                                # the same bytes are prescribed when the writer has seen a failed serialize() of this object before
+                                cases.append({"kind": "ser", "prog": r["prog"], "san0": r["san0"], "fuel": -1, "obj": r["obj"], "salt": i, "prefail": (i // 3) % 4})
+                                kept.append(r)
                     imp, results = run_drivers_parallel(src, wt, accepted, types, cases)
                     if imp:
                         v.violation(f"generated package not importable ({variant} defaults)", imp.strip().splitlines()[-1], {"trace": imp})
                         continue
-                    kept = [r for r in recs if r["prog"] in acc]
                     for r, c, o in zip(kept, cases, results):
                         nchecked += 1
                         if "harness_error" in o:
                             raise MachineryError(o["harness_error"])
                         if corrupt and nchecked == 50:
                             o = dict(o, bytes=o["bytes"] + [1])
-                        key = f"{r['prog']} ({variant}) obj={json.dumps(r['obj'], sort_keys=True)[:300]} san0={r['san0']}"
+                        key = f"{r['prog']} ({variant}{', writer reused after a failed call' if 'prefail' in c else ''}) obj={json.dumps(r['obj'], sort_keys=True)[:300]} san0={r['san0']}"
                         case = {"prog": r["prog"], "variant": variant, "san0": r["san0"], "obj": r["obj"], "model_bytes": r["bytes"], "observed": {k: o.get(k) for k in ("ctor_exc", "exc", "bytes", "san_end", "family", "action")}}
                         if o["ctor_exc"]:
                             v.violation(f"{r['prog']} ({variant}) constructor " + o["ctor_exc"][:60] + " obj=" + json.dumps(r["obj"], sort_keys=True)[:200],
